@@ -335,6 +335,65 @@ fn check_pair(data: &Data, k: usize, r: usize, first: &Call, second: &Call) -> R
     })
 }
 
+/// Reduced argument space of the one-shot functions, shared with C06 ("every public call ... returns a
+/// truthful Err, neither panics nor returns Ok"): short lists over the index/size alphabets, complete
+/// valid inputs followed by one surplus item, and unsupported count pairs with complete valid input.
+pub fn oneshot_sweep(refm: &RefModel, seed: u64) -> (u64, Vec<(Kv, String, String)>) {
+    let mut cases: Vec<Kv> = Vec::new();
+    let classes = [0usize, 2, 3, 64];
+    for (k, r) in [(1usize, 1usize), (2, 1), (2, 2), (3, 2)] {
+        let base = Kv::new().with("k", k).with("r", r).with("seed", seed);
+        let mut idx: Vec<usize> = vec![0, 1, k - 1, k, usize::MAX];
+        idx.sort();
+        idx.dedup();
+        let mut ridx: Vec<usize> = vec![0, 1, r - 1, r, usize::MAX];
+        ridx.sort();
+        ridx.dedup();
+        let oa: Vec<(usize, usize)> = idx.iter().flat_map(|i| classes.iter().map(move |c| (*i, *c))).collect();
+        let ra: Vec<(usize, usize)> = ridx.iter().flat_map(|i| classes.iter().map(move |c| (*i, *c))).collect();
+        for lens in sequences(&classes.to_vec(), k + 1) {
+            cases.push(base.clone().with("fn", "encode").with("lens", if lens.is_empty() { "-".to_string() } else { fmt_lens(&lens) }));
+        }
+        let rls: Vec<Vec<(usize, usize)>> = sequences(&ra, 1);
+        for ol in sequences(&oa, 2) {
+            for rl in &rls {
+                cases.push(base.clone().with("fn", "decode").with("orig", fmt_items(&ol)).with("rec", fmt_items(rl)));
+            }
+        }
+        // complete valid originals, then one more item
+        for b in [2usize, 64] {
+            let all: Vec<(usize, usize)> = (0..k).map(|i| (i, b)).collect();
+            for extra in &oa {
+                let mut ol = all.clone();
+                ol.push(*extra);
+                for rl in &rls {
+                    cases.push(base.clone().with("fn", "decode").with("orig", fmt_items(&ol)).with("rec", fmt_items(rl)));
+                }
+            }
+        }
+    }
+    for (k, r) in [(3usize, 65533usize), (65533, 3), (60000, 5000), (32769, 32767), (65535, 2)] {
+        let base = Kv::new().with("k", k).with("r", r).with("seed", seed);
+        let all: Vec<(usize, usize)> = (0..k).map(|i| (i, 2)).collect();
+        cases.push(base.clone().with("fn", "encode").with("lens", fmt_lens(&vec![2; k])));
+        cases.push(base.clone().with("fn", "decode").with("orig", fmt_items(&all)).with("rec", "-"));
+        cases.push(base.clone().with("fn", "decode").with("orig", fmt_items(&all[1..])).with("rec", fmt_items(&[(0, 2)])));
+    }
+    let results: Vec<Result<(), V>> = par_for(cases.len(), 64, |i| {
+        let kv = &cases[i];
+        let (k, r) = (kv.usize("k"), kv.usize("r"));
+        let data = Data::new(refm, k, r, seed);
+        let res = guard(|| if kv.str("fn") == "encode" { check_encode(&data, k, r, &parse_lens(kv.str("lens"))) } else { check_decode(&data, k, r, &parse_items(kv.str("orig")), &parse_items(kv.str("rec"))) });
+        match res {
+            Ok(r) => r,
+            Err(p) => Err(("no panic".into(), format!("PANIC: {p}"))),
+        }
+    });
+    let n = cases.len() as u64;
+    let bad = cases.into_iter().zip(results).filter_map(|(kv, r)| r.err().map(|(e, o)| (kv, e, o))).collect();
+    (n, bad)
+}
+
 pub fn replay(_ctx: &Ctx, case: &str) -> Result<(), String> {
     let kv = Kv::parse(case)?;
     let refm = RefModel::new();
